@@ -186,7 +186,9 @@ def run(E: Engine, rep: Report, tier: str) -> dict:
     vl = E.fn("pulser.register.base_register.BaseRegister._validate_layout")
     ok = False
     for l in _ST(E, vl).logged("raise"):
-        for pat_ in ("Q_l.coords[Q_t] != Q_c", "Q_l.sorted_coords[Q_t] != Q_c"):
+        # a register coordinate mismatches its trap as soon as ANY component differs (np.any / any / not all-equal)
+        for pat_ in ("np.any(Q_l.coords[Q_t] != Q_c)", "np.any(Q_l.sorted_coords[Q_t] != Q_c)", "not np.all(Q_l.coords[Q_t] == Q_c)", "not np.all(Q_l.sorted_coords[Q_t] == Q_c)",
+                     "not np.array_equal(Q_l.coords[Q_t], Q_c)", "not np.array_equal(Q_l.sorted_coords[Q_t], Q_c)", "(Q_l.coords[Q_t] != Q_c).any()", "(Q_l.sorted_coords[Q_t] != Q_c).any()"):
             for m_ in _symT.find_all(l.cond, _symT.Pattern(pat_)):
                 lay_ok = _unT(m_["Q_l"]) == ("name", "register_layout")
                 t_, c_ = m_["Q_t"], m_["Q_c"]
